@@ -161,7 +161,6 @@ DISAGREEING = ["shift", "perm", "random", "few"]
 
 def option_case(ctx, rng, idx, spec, sterms, smetas, terms, metas):
     """one catalog created with the options of `spec`; appends a c12_split_case term (+ metadata terms)"""
-    from sim import pool as simpool_
     options, entry, workers, column_kind = spec["options"], spec["entry"], spec["workers"], spec["column"]
     cent_as, has_name, has_num = OPTION_SETS[options]
     ncent = rng.choice([2, 3, 4, 5, 5, 12])
@@ -209,14 +208,14 @@ def option_case(ctx, rng, idx, spec, sterms, smetas, terms, metas):
         cache = impl.fresh_dir(ctx, "opt")
         if workers > 1:
             impl.set_threads(16)
-            sched = simpool_.Schedule(rng.choice(["reverse", "random", "identity"]), seed=rng.randrange(10 ** 6))
+            sched = simpool.Schedule(rng.choice(["reverse", "random", "identity"]), seed=rng.randrange(10 ** 6))
         try:
             def create():
                 if entry == "dataframe":
                     return impl.Catalog.from_dataframe(cache, impl.make_df(cols), **args)
                 return impl.Catalog.from_file(cache, write_input(ctx, rng, entry, cols), **args)
             if sched is not None:
-                with simpool_.patched(sched):
+                with simpool.patched(sched):
                     cat = create()
                     if observe == "reopened":
                         cat = impl.Catalog(cat.cache_directory, max_workers=workers)
@@ -275,8 +274,15 @@ def option_case(ctx, rng, idx, spec, sterms, smetas, terms, metas):
         stored = [where[i] for i in use]
         colu = [int(column[i]) for i in use] if has_name else None
         several = sum([cent_as is not None, has_name, has_num]) >= 2
-        sterms.append("c12_split_case %s %s %s %s %s %s" % (fq.b(cent_as is not None), fq.b(has_name), fq.b(has_num),
-                                                          fq.lst([fq.qlist(r) for r in rows]), fq.opt(colu, fq.nlist), fq.nlist(stored)))
+        # exact squared chords in units of 2^-K (all are dyadic); hexadecimal integer literals keep Coq's parsing cheap
+        K = max([fr.denominator.bit_length() - 1 for r in rows for fr in r] + [0])
+        zrows = []
+        for r in rows:
+            ints = [fr * (1 << K) for fr in r]
+            assert all(x.denominator == 1 for x in ints)
+            zrows.append("[" + "; ".join("0x%x" % x.numerator for x in ints) + "]")
+        sterms.append("c12_split_case_z %s %s %s (%s)%%Z %s %s" % (fq.b(cent_as is not None), fq.b(has_name), fq.b(has_num),
+                                                                 fq.lst(zrows), fq.opt(colu, fq.nlist), fq.nlist(stored)))
         smetas.append((cid, dict(replay=replay, rows=rows, stored=stored, column=colu, use=use, centres=cent_as is not None)))
         ctx.count(key=(cid, options, entry, workers, chunksize, column_kind, tuple(stored)),
                   nontrivial=several and (colu is None or colu != stored or has_num), kind=kind)
@@ -299,17 +305,19 @@ def run_options(ctx, terms, metas):
             for workers in [1, 3]:
                 specs.append(dict(options=options, entry=entry, workers=workers, column=DISAGREEING[k % len(DISAGREEING)]))
                 k += 1
-    for options in ["centres+num", "name+num"]:
-        for entry, workers in [("dataframe", 1), ("parquet", 3)]:
+    for options in ["centres+num", "name+num", "centres", "name"]:       # incl. the single-option controls
+        for entry, workers in [("dataframe", 1), ("parquet", 3), ("hdf5", 3)]:
             specs.append(dict(options=options, entry=entry, workers=workers, column=DISAGREEING[k % len(DISAGREEING)]))
             k += 1
-    for _ in range(ctx.n(16, 300)):
+    for _ in range(ctx.n(30, 400)):
         options = rng.choice(["centres+name"] * 4 + ["catalog+name"] * 2 + ["centres+name+num"] * 2 + ["centres+num", "name+num", "centres", "name"])
         specs.append(dict(options=options, entry=rng.choice(["dataframe", "dataframe", "parquet", "hdf5", "fits"]), workers=rng.choice([1, 1, 3]),
                           column=rng.choice(DISAGREEING * 3 + ["agree", "sparse", "fewer"])))
     for idx, spec in enumerate(specs):
         option_case(ctx, rng, idx, spec, sterms, smetas, terms, metas)
-    codes = ctx.shards("Cases_C12_split", HEADER, sterms, shard=40)
+    ctx.log("option cases: %d specs run, %d terms" % (len(specs), len(sterms)))
+    codes = ctx.shards("Cases_C12_split", HEADER, sterms, shard=8)
+    ctx.log("option cases: evaluated in Coq")
     for (cid, m), c in zip(smetas, codes):
         if not c:
             continue
@@ -502,6 +510,7 @@ def run(ctx):
     except ValueError:
         pass  # refusing is what the property asks for
     # ---- several patch-definition options at once (precedence centres > name > num) ----
+    ctx.log("single-option cases done")
     run_options(ctx, terms, metas)
     codes = ctx.shards("Cases_C12_meta", HEADER, terms, shard=200)
     for (cid, meta), c in zip(metas, codes):
